@@ -3,6 +3,7 @@ use std::convert::{TryFrom, TryInto};
 use regex::Regex;
 use smol_str::SmolStr;
 use unicode_segmentation::UnicodeSegmentation;
+use unicode_width::UnicodeWidthStr;
 
 use crate::fatal;
 use crate::features::side_by_side::ansifill::ODD_PAD_CHAR;
@@ -84,7 +85,7 @@ impl<T> FormatStringPlaceholderDataAnyPlaceholder<T> {
     pub fn only_string(s: &str) -> Self {
         Self {
             suffix: s.into(),
-            suffix_len: s.graphemes(true).count(),
+            suffix_len: s.width(),
             ..Self::default()
         }
     }
@@ -177,9 +178,10 @@ pub fn parse_line_number_format<'a>(
         let match_ = captures.get(0).unwrap();
         let prefix = SmolStr::new(&format_string[offset..match_.start()]);
         let prefix = expand_first_prefix(prefix);
-        let prefix_len = prefix.graphemes(true).count();
+        // (the length in terminal columns: a format may contain wide characters)
+        let prefix_len = prefix.width();
         let suffix = SmolStr::new(&format_string[match_.end()..]);
-        let suffix_len = suffix.graphemes(true).count();
+        let suffix_len = suffix.width();
         format_data.push(FormatStringPlaceholderData {
             prefix,
             prefix_len,
